@@ -833,7 +833,7 @@ class Engine:
         if isinstance(goal, bool):
             goal = z3.BoolVal(goal)
         self.obl_count += 1
-        info = dict(info)
+        info = dict(getattr(self, 'obl_info', None) or {}, **info)  # (C21) per-engine defaults, e.g. {'cvc5_first': True} for string VCs
         info['trace'] = ' > '.join(st.trace[-12:])
         none_false = [z3.Not(self.ufs['truthy'](z3.Const('const_None', U)))] if 'truthy' in self.ufs else []  # None is false
         o = valid('%s/%s' % (self.label, name), list(st.pc) + none_false + interned_distinct(list(st.pc) + none_false + [goal]), goal, kind=kind, **info)
